@@ -19,6 +19,7 @@ from ..core import (
     ContainerValueMixin,
     Field,
     Schema,
+    ValidationError,
     isconfigtype,
 )
 
@@ -184,6 +185,28 @@ class ListField(Field):
             else:
                 default = list(default)
         cfg._set_default_value(self._key, default)
+
+    def validate(self, cfg: Config, value: Any) -> Any:
+        """
+        Validate the list. When the list is rejected, the configurations it offered (items of a list
+        that is already held, for example) stay with the list and the position they belong to.
+        """
+        offered = value if isinstance(value, (list, tuple)) else ()
+        links = [
+            (item, item._parent, item._key, item._container, getattr(item, "_position_hint", None))
+            for item in offered
+            if isinstance(item, Config)
+        ]
+        try:
+            return super().validate(cfg, value)
+        except Exception as err:
+            if links and isinstance(err, ValidationError):
+                # the path of this rejection refers to the offered list: compute it before the items go back
+                err._ref_path = err.ref_path
+            for item, parent, key, container, hint in links:
+                item._parent, item._key, item._container = parent, key, container
+                item._position_hint = hint
+            raise
 
     def _validate(self, cfg: Config, value: list) -> Union[list, ListProxy]:
         """
